@@ -452,6 +452,11 @@ def pack_into_passes(nng, arch, verbose_packing=False):
                 ):
                     return False
 
+            # A transpose is done by swapping the strides of its own (linear format) OFM tensor; with a square shape the
+            # check above does not see that the OFM is written in another order
+            if next_op.original_type == Op.Transpose:
+                return False
+
             # A ReLU cannot be applied behind a fused table lookup, tanh or sigmoid by the same operation
             if (
                 curr_op.type in activation_ops
